@@ -204,7 +204,7 @@ Definition blocking_senders (P : program) : list string :=
    of the announcer's methods): Lock; guarded accesses; Unlock — nothing guarded outside *)
 Definition only_accesses (reads_only : bool) (c : list instr) : bool :=
   forallb (fun i => match i with
-                    | Rd _ | Send _ => true
+                    | Rd _ => true
                     | WrW _ | WrE _ => negb reads_only
                     | _ => false end) c.
 Definition stateless (i : instr) : bool :=
@@ -225,8 +225,12 @@ Definition one_section (m : string) (body0 : list instr) : bool :=
       | _ => false end
   | _ => false
   end.
+(* on the body with calls inlined; a blocking send INSIDE the section is refused (the method
+   would not be one atomic step), sends / callbacks before Lock or after Unlock are not part of it *)
 Definition sections_ok (P : program) (m : string) (methods : list string) : bool :=
-  forallb (fun f => match lookup f P with Some body => one_section m body | None => false end) methods.
+  forallb (fun f => match lookup f P with
+                    | Some body => match inline fuel0 P body with Some c => one_section m c | None => false end
+                    | None => false end) methods.
 
 (* ---- status fetchers run outside the Listener mutex: they may touch only guarded
    fields (and the guarding mutex) of their receiver ---- *)
